@@ -143,6 +143,13 @@ def gen_tx_case(rng):
         # the whole Wait budget is used up in time; what comes after the last deadline is a timeout, whatever arrives then
         for _ in range(wft):
             ops += [[0, 'tick', rng.choice([T // 2, T // 3, max(0, T - 1)])], fc(1, 0), [0, 'proc', 1, 1]]
+    if where in ('after_ff', 'after_block') and rng.random() < 0.25:
+        # full duplex: while the layer waits for its Flow Control it receives the start of a message of the peer, up to the end of one of
+        # its own receive blocks - the deadline of its own wait is not affected
+        p['blocksize'] = 2
+        ops += [[0, 'rx', rid, int(ext), hx(pfx + bytes([0x10, 40]) + bytes(range(6 - len(pfx))))], [0, 'proc', 1, 1],
+                [0, 'rx', rid, int(ext), hx(pfx + bytes([0x21]) + bytes(7 - len(pfx)))], [0, 'proc', 1, 1],
+                [0, 'rx', rid, int(ext), hx(pfx + bytes([0x22]) + bytes(7 - len(pfx)))], [0, 'proc', 1, 1]]
     ops += gap_ops(rng, gap, 0 if (where == 'after_max_waits' and rng.random() < 0.6) else rng.randint(0, 3))
     late_fc = rng.choice(['cts', 'wait', 'none']) if wft else rng.choice(['cts', 'none'])
     if where == 'after_max_waits' and rng.random() < 0.6:
